@@ -3,9 +3,17 @@
    decoder body per type (IR.m_from); that the two real texts are those two renderings is
    what the correspondence check K2 establishes on every run, and K3 runs both compiled
    families on every input.  The theorems below are about what a successful decode does to
-   the caller's buffer, for EVERY emitted module, type and input.  Proofs in
-   XdrProofs.SemProofs / XdrProofs.RoundTrip. *)
-From XdrProofs Require Import SemProofs.
+   the caller's buffer, for EVERY emitted module, type and input.
+   C03_local: the third sentence of the property for EVERY accepted input, canonical encoding or
+   not -- if a decode succeeds having consumed c bytes, then decoding the same c bytes followed
+   by ANY other suffix, at ANY other offset of ANY other allocation, succeeds with the same
+   value (opaque views relocated by the same offset), consumes the same c bytes and leaves its
+   own suffix untouched.  Hypothesis (decidable: local_from_b): the types the decoder reaches
+   hold no inline variable-length opaque position -- with one (finding F1) the decoder of an
+   array element reads 4 bytes past what the caller steps over, and those bytes may belong to
+   the suffix.  Proofs in XdrProofs.SemProofs / RoundTrip / Local. *)
+From XdrProofs Require Import SemProofs Local.
+From XdrProps Require C01.
 Open Scope N_scope.
 Open Scope list_scope.
 
@@ -20,3 +28,51 @@ Theorem C03_frame :
               exists d, s_led s' = l ++ d.
 Proof. exact (fun md fuel ty a o bs l v s' H => proj1 (dec_snd md fuel ty (mk a o bs l) v s' H)). Qed.
 Print Assumptions C03_frame.
+
+(* ---- locality: the result depends neither on the suffix nor on the position of the view ---- *)
+
+(* module-level form: R is any set of decoder names closed under calls whose members consume
+   exactly wire_size() of what they return *)
+Theorem C03_local :
+  forall (md : module_ir) (R : string -> Prop),
+    (forall ty i, R ty -> find_from md ty = Some i -> body_ok R (i_body i)) ->
+    (forall fuel ty, R ty -> forall s t s', bytes_ok (s_rem s) -> dec md fuel ty s = Ok t s' ->
+                                             wsz md t = Some (remaining s - remaining s')) ->
+    forall fuel ty a1 o1 a2 o2 b r1 r2 l1 l2 v1 s1',
+      R ty -> bytes_ok (b ++ r1) ->
+      dec md fuel ty (mk a1 o1 (b ++ r1) l1) = Ok v1 s1' ->
+      len (b ++ r1) - remaining s1' <= len b ->
+      let c := len (b ++ r1) - remaining s1' in
+      exists v2 s2',
+        dec md fuel ty (mk a2 o2 (b ++ r2) l2) = Ok v2 s2' /\
+        vrel a1 o1 a2 o2 v1 v2 /\
+        s_rem s1' = drop c b ++ r1 /\ s_rem s2' = drop c b ++ r2 /\
+        s_off s1' = o1 + c /\ s_off s2' = o2 + c /\ s_alloc s1' = a1 /\ s_alloc s2' = a2.
+Proof. exact dec_local. Qed.
+Print Assumptions C03_local.
+
+Theorem C03_local_decidable :
+  forall A md n fuel a1 o1 a2 o2 b r1 r2 l1 l2 v1 s1',
+    gen A = EOk md -> local_from_b A md n = true ->
+    bytes_ok (b ++ r1) ->
+    dec md fuel n (mk a1 o1 (b ++ r1) l1) = Ok v1 s1' ->
+    len (b ++ r1) - remaining s1' <= len b ->
+    let c := len (b ++ r1) - remaining s1' in
+    exists v2 s2',
+      dec md fuel n (mk a2 o2 (b ++ r2) l2) = Ok v2 s2' /\
+      vrel a1 o1 a2 o2 v1 v2 /\
+      s_rem s1' = drop c b ++ r1 /\ s_rem s2' = drop c b ++ r2 /\
+      s_off s1' = o1 + c /\ s_off s2' = o2 + c /\ s_alloc s1' = a1 /\ s_alloc s2' = a2.
+Proof. exact local_b. Qed.
+Print Assumptions C03_local_decidable.
+
+(* related values are equal up to the position of their opaque views: same data, same
+   wire_size() *)
+Theorem C03_vrel_same_size :
+  forall a1 o1 a2 o2 md v1 v2, vrel a1 o1 a2 o2 v1 v2 -> wsz md v1 = wsz md v2.
+Proof. exact vrel_wsz. Qed.
+Print Assumptions C03_vrel_same_size.
+
+Example C03_local_nonvacuous :
+  match gen C01.A_demo with EOk md => local_from_b C01.A_demo md "reply" | _ => false end = true.
+Proof. vm_compute. reflexivity. Qed.
